@@ -1,10 +1,12 @@
 #!/bin/sh
-# sweep.sh [tier]: runs every claimed check once, prints one line per check
+# sweep.sh [tier] [extra check args]: runs every claimed check once (or those in $IDS), one line per check.
+# Each check holds /verif/.work/repo.lock shared; tools/try_seed.sh takes it exclusively.
 cd "$(dirname "$0")/.." || exit 2
 mkdir -p .work
 tier=${1:-quick}
-for id in $(python3 -c "import json;print(' '.join(c['property_id'] for c in json.load(open('MANIFEST.json'))['checks']))"); do
+ids=${IDS:-$(python3 -c "import json;print(' '.join(c['property_id'] for c in json.load(open('MANIFEST.json'))['checks']))")}
+for id in $ids; do
   s=$(date +%s)
-  ./check $id --tier $tier $2 > .work/sweep_${tier}_$id.log 2>&1; rc=$?
+  flock -s .work/repo.lock ./check $id --tier $tier $2 > .work/sweep_${tier}_$id.log 2>&1; rc=$?
   echo "$id rc=$rc $(( $(date +%s) - s ))s $(grep -c "^VIOLATION" .work/sweep_${tier}_$id.log) violations $(grep -c "^INCONCLUSIVE" .work/sweep_${tier}_$id.log) inconclusive"
 done
